@@ -6,7 +6,8 @@ RULE = ("cases = committed corpus + seeded generator of harness/src/bin/c13d.rs.
         "subscriptions), WebSocketSubscriber::subscribe's debug! (subscriber/mod.rs:73: Exchange::ID, Exchange::url(), Debug of the Vec<Subscription<Connector, Instrument, Kind>> "
         "handed over = connector struct with its server marker type, every instrument, the kind type) and connect's debug! (barter-integration/src/protocol/websocket.rs:142: the "
         "Url dialled). Observed per op, in event order: one `ims` / `conn` / `req` line per arm invocation, then the number of init_market_stream calls, the initialised "
-        "subscriptions (Connector::ID, instrument, kind) sorted, and what init returned (Ok with the stream count per family | the failed connection attempt | Err + Display of the "
+        "subscriptions (Connector::ID, instrument, kind) as a multiset — printed in the byte order of the printed lines, a canonical order of the harness that does not go through any Ord "
+        "of the code under test —, and what init returned (Ok with the stream count per family | the failed connection attempt | Err + Display of the "
         "DataError). Fixed cases on every run: `sweep` (and `s<i>`, the same ops as one case each) = every (ExchangeId, SubKind) of the 42 x 6 table as a single subscription under the instrument kind classes the real "
         "table supports, or spot where it supports none (quick: 255 ops; thorough: all 42 x 6 x 4 = 1008), and `every-arm` = one batch holding two instruments for each of the 21 "
         "supported (exchange, kind) pairs, the same as 21 batches, the same with every subscription repeated, no batch, one empty batch. Random cases: 1-3 init ops of 1-4 batches "
@@ -38,11 +39,13 @@ ASSUMPTIONS = [
     "slice::sort_unstable_by_key is a PARAMETER of the model constrained only by its documentation (as in C13V); the driver instantiates it with the stable merge sort, which the "
     "pinned toolchain agrees with on at most 20 elements. When a validated batch is longer than 20 the order inside a group is not compared (harness prints the instruments "
     "sorted and `-` for the Display string; the stable order inside a group IS ascending because validate_subscriptions sorted the batch)",
-    "instruments are MarketDataInstrument with asset names a000, a001, .. , integer strikes, whole-millisecond expiries (C13V conventions); only `MarketDataInstrument` is driven "
+    "instruments are MarketDataInstrument with asset names a000, a001, .. (`format!(\"a{n:03}\")`; the derived Ord compares the names as strings and so does the model: numeric "
+    "order below 1000, a1000 < a999 from there on), integer strikes, whole-millisecond expiries (C13V conventions); only `MarketDataInstrument` is driven "
     "(the theorems are generic in the instrument type); Keyed / MarketInstrumentData instantiations of init are not",
     "the spec (oracle) is the README table `Supported Exchange Subscriptions` plus (BinanceFuturesUsd, Perpetual, Liquidations) (C13V), read as: supported batches => every "
     "subscription of a batch initialised once per batch under its own exchange id / kind / instrument, one connection per distinct (exchange, kind) of a batch, nothing else; "
-    "otherwise an error and nothing initialised. The spec says nothing about order, URLs, policy, stream keys or the offline outcome",
+    "otherwise an error and nothing initialised. The spec says nothing about order, URLs, policy, stream keys or the offline outcome; it is computed in the driver from `Spec`'s own "
+    "vocabulary (`nub` of each batch, the distinct (exchange, kind) pairs by eraseDups), not through the model's sort keys",
 ]
 SOURCE_FILES = ["barter-data/src/streams/builder/dynamic/mod.rs", "barter-data/src/streams/consumer.rs", "barter-data/src/subscriber/mod.rs",
                 "barter-integration/src/protocol/websocket.rs", "barter-data/src/subscription/mod.rs", "barter-data/src/exchange/mod.rs",
@@ -96,22 +99,40 @@ def signature(ops, k, key, impl_line, spec_line):
 CLAIM = False
 TECHNIQUE = ("Lean 4: the 21 arm bodies of DynamicStreams::init as a total table over ExchangeId x SubKind (connector type, kind type, channel family), decided right entry by entry by "
              "the kernel over all 42 x 6 pairs (`TableOk`: arm iff C13V's pattern, Connector::ID = the pattern's exchange, kind type = the pattern's kind, family = route kind, a "
-             "StreamSelector exists); for EVERY right table, every batch list, every instrument type with a lawful order and every function satisfying the documentation of "
+             "StreamSelector exists; `TableOk` has exactly one inhabitant, the repository's table — tableOk_unique — it only names the four facts about the table the proofs use); "
+             "for every batch list, every instrument type with a lawful order and every function satisfying the documentation of "
              "sort_unstable_by_key, refinement of init to a multiset-level specification by induction over the batch list (groups of validated batches are a permutation of the "
              "batch's set; a call initialises exactly its group because of own_id / own_kind); counter-theorems for two wrong tables; correspondence with the REAL init observed "
              "through the repository's own tracing events")
-LEVEL_TEXT = ("Sub-check of C13. lean/BarterModel/Props/C13D.lean. TABLE (kernel decide over the whole table): arm_bodies_ok, arm_body_iff_arm (= C13V's pattern table hasArm), "
-              "arm_body_iff_validated, arm_constructs_own_connector (connId body.conn = the pattern's exchange), arm_constructs_own_kind, arm_forwards_to_own_family, arm_has_selector, "
-              "arm_bodies_injective, arm_dials_own_venue, urls_distinct. FOR ALL batches / right tables / admissible sorts: refines_spec and refines_documented_spec (supported => the "
+LEVEL_TEXT = ("Sub-check of C13. lean/BarterModel/Props/C13D.lean. TABLE (a HAND COPY of the 21 arm bodies, kernel decide over the whole 42 x 6 table; its tie to dynamic/mod.rs is the "
+              "harness, not a proof): arm_bodies_ok, arm_body_iff_arm (= C13V's pattern table hasArm), arm_body_iff_validated, arm_constructs_own_connector (connId body.conn = the "
+              "pattern's exchange) and arm_constructs_own_kind — the two facts the correspondence OBSERVES (conn / isub lines) and the specification constrains; arm_has_selector, "
+              "arm_bodies_injective, every_connector_dials_own_venue (all 15 connectors; arm_dials_own_venue is its corollary), urls_distinct. NOT on a par with these: "
+              "arm_forwards_to_own_family (the txs.<family> a connected stream is forwarded into) is a fact about the hand copy only, READ FROM THE SOURCE and unobserved offline; the "
+              "specification does not constrain it either (wrong_chan_satisfies_spec: BinanceSpot trades forwarded into l2s is not TableOk and still satisfies Spec). FOR ALL batches / "
+              "admissible sorts / lawful instrument orders, for the repository's table (the theorems are written over a table variable with hypothesis TableOk; tableOk_unique shows that "
+              "is one table, so `for every right table` adds nothing): refines_spec and refines_documented_spec (supported => the "
               "initialised (Connector::ID, instrument, kind) triples are a PERMUTATION of the batch-wise sets of subscriptions and no error; unsupported => the validation error names a "
               "rejected subscription of some batch and no call is made), connector_id_is_exchange_id (every triple handed to a subscriber is a subscription of some batch: nothing else "
-              "is initialised), kind_and_exchange_preserved (a call never mixes kinds or exchanges and is never empty), each_subscription_once (count = number of batches holding it, "
+              "is initialised), kind_and_exchange_preserved_always (a call never mixes kinds or exchanges and is never empty, for every batch list; kind_and_exchange_preserved is the "
+              "former version under an unneeded `all valid` hypothesis), each_subscription_once (count = number of batches holding it, "
               "whatever the repetitions and the order), every_subscription_initialised, unsupported_nothing_initialised, calls_are_c13v_connections (the calls are exactly the "
-              "connections the C13V model assumes), calls_count (one call per distinct (exchange, kind) of every batch), outcome_ok_iff_no_subscription, every_call_uses_default_policy, "
+              "connections the C13V model assumes), calls_count (one call per distinct (exchange, kind) of every batch), outcome_ok_iff_no_subscription, only_validation_errors and "
+              "arm_lookup_never_defaults (the model's Unsupported / SubscriptionsEmpty paths and the `getD default` of armCall are dead for the right table), "
               "init_refines_spec (the repository's table with MarketDataInstrument). COUNTER-THEOREMS: wrong_connector_is_not_ok, wrong_connector_violates_spec (GateioFuturesUsd in the "
-              "GateioFuturesBtc arm: the subscription is initialised under the sibling's id and Spec fails), wrong_kind_violates_spec.")
+              "GateioFuturesBtc arm: the subscription is initialised under the sibling's id and Spec fails), wrong_kind_violates_spec; wrong_chan_is_not_ok + wrong_chan_satisfies_spec "
+              "(the limit of the specification). Bookkeeping (definitional, not results): policy_is_a_constant_of_the_model / every_call_uses_default_policy (the model writes "
+              "STREAM_RECONNECTION_POLICY down for any table; that the code passes it is the `ims` line of the correspondence), the projections of arm_bodies_ok.")
 LEVEL_NOTE = ("Trusted: Lean kernel (axioms propext/Classical.choice/Quot.sound only); the hand-written table tied by sampled correspondence (the whole 42 x 6 table and all 21 arms on "
               "every run; 1 000 quick / 10 000 thorough random cases); THE OBSERVATION POINT: the repository's three tracing events before the network are taken as the witness of what an "
               "arm body constructed (a harness-local tracing::Subscriber records their fields; derived Debug / Display texts parsed by the harness). NOT observed offline: the "
               "forwarding of a connected stream into txs.<family> (the model's `chan` is read from the source and proved equal to route kind), the select_* accessors (C13V drives "
-              "them on a hand-built value), Keyed / MarketInstrumentData instantiations. Self-test: mutants/C13D_*.patch.")
+              "them on a hand-built value), Keyed / MarketInstrumentData instantiations. ORACLE: the spec mode prints `calls`, `isub` and `res err` only (from the README table and the "
+              "batch-wise sets); it is silent on `ims`, `conn`, `req`, `msg` and on `res ok` / `res network` — URL, policy, stream key, connector marker and the order within a call are "
+              "CORRESPONDENCE-ONLY (model vs code). ORDER: the oracle's `isub` lines are a multiset in a canonical order of their own (the printed lines sorted, on both sides), so the "
+              "oracle no longer depends on how instruments compare — before the sub-check review both sides sorted them by the instrument order, the model numerically and the code by "
+              "name, which gave a FALSE oracle alarm on `init 7,1000/1/s,0 7,999/1/s,0`; the order INSIDE a call (`ims` / `conn` lines) is compared with the model, which now orders asset "
+              "names as strings like the code (a1000 < a999; C13V asset_name_1000_sorts_before_999; corpus case asset-names-order-as-strings; "
+              "mutants/C13V_asset_names_ordered_by_length.patch run against C13D is a correspondence break on the `ims` line, as it should be: the specification is silent on order). Dead paths of the model (runArm's Unsupported / "
+              "SubscriptionsEmpty, armCall's `getD default`) are never taken for the right table: arm_lookup_never_defaults, only_validation_errors. Self-test: mutants/C13D_*.patch "
+              "(run by tools/selftest.sh).")
